@@ -97,9 +97,18 @@ def eval_roundtrip(case):
                       'status': [s1, s2]})
     elif getattr(r2, '_dtstart', None) != getattr(r, '_dtstart', None):
         viols.append({'kind': 'roundtrip-start-differs', 'text': text})
-    # str is stable under the round trip (same text again)
-    elif str(r2) != text:
-        viols.append({'kind': 'roundtrip-str-not-stable', 'text': text, 'again': str(r2)})
+    else:
+        # printing is repeatable and leaves the rule usable (the text of the re-read rule is not compared: the
+        # statement promises equal occurrences, not an equal spelling)
+        try:
+            again = str(r)
+            s3, c = take(r, horizon)
+        except Exception as e:
+            viols.append({'kind': 'str-exception', 'text': text, 'error': 'second str()/iteration: ' + repr(e)[:150]})
+        else:
+            if again != text or (s3, c) != (s1, a):
+                viols.append({'kind': 'roundtrip-occurrences-differ', 'text': text, 'got': c[:4], 'expected': a[:4],
+                              'status': [s1, s3], 'note': 'the rule itself after str()'})
     return Res(trans=len(a) + 1, viols=viols, nontrivial=len(a) >= 2, outcome='ok' if a else 'empty',
                sample={'text': text, 'first': a[:2]} if len(case) == 4 and 'byweekday' in case and case['freq'] == 1 else None)
 
@@ -450,6 +459,8 @@ def eval_set(case):
 MALFORMED = [
     'FREQ=FOO;COUNT=3',
     'RRULE:FREQ=DAILY;FOO=1',
+    'RRULE:FREQ=DAILY;COUNT=4;X-FOO=1',
+    'FREQ=DAILY;x-bar=2;COUNT=4',
     'RRULE:FREQ=DAILY;BYDAY=',
     'RRULE:FREQ=DAILY;BYDAY=XX',
     'RRULE:FREQ=DAILY;BYDAY=+1',
